@@ -396,8 +396,13 @@ def refined_ok(v, r, siblings: dict) -> tuple[bool, str]:
             )
             return (ok, k)
         if k == "Dependent":
-            sib = siblings[r[1]]
             rule = r[2]
+            if rule[0] == "encode_two":
+                first, second = (siblings[n] for n in r[1].split(","))
+                return (type(v) is int and v == 10 * first + second, "Dependent/encode_two")
+            sib = siblings[r[1]]
+            if rule[0] == "varrange_same":
+                return (type(v) is str and v == sib, "Dependent/varrange_same")
             if rule[0] == "intrange_from":
                 return (type(v) is int and sib <= v <= sib + rule[1], "Dependent/intrange_from")
             if rule[0] == "varrange_prefix":
@@ -545,8 +550,13 @@ class Language:
             if rk in ("ListSizeBetween", "LSBWLO"):
                 return self._lists(inner[1], r[1], r[2], d)
             if rk == "Dependent":
-                sib = sibs[r[1]]
                 rule = r[2]
+                if rule[0] == "encode_two":
+                    first, second = (sibs[n] for n in r[1].split(","))
+                    return [(("int", repr(10 * first + second)), 10 * first + second)]
+                sib = sibs[r[1]]
+                if rule[0] == "varrange_same":
+                    return [(("str", repr(sib)), sib)]
                 if rule[0] == "intrange_from":
                     return [(("int", repr(i)), i) for i in range(sib, sib + rule[1] + 1)]
                 if rule[0] == "varrange_prefix":
